@@ -1,1 +1,1315 @@
-//! m3 — reference model (to be written)
+//! M3 — naive reference prover (DESIGN §3, Appendix A.2/A.3).
+//!
+//! Reproduces dusk-plonk's proofs byte for byte under a scripted RNG from
+//!   * the preprocessed circuit as the real keys state it (`Prover::to_bytes()`
+//!     parsed by `parse_prover`: selector / sigma polynomials in coefficient
+//!     form, commit-key points, verifier-key commitments),
+//!   * the instance (wire table and public-input rows of a snapshot),
+//!   * label, transcript version and the 14 masking scalars
+//!     `a0 a1 b0 b1 c0 c1 d0 d1 z0 z1 z2 t12 t13 t14`.
+//!
+//! Everything is deliberately naive and own code: O(n^2) DFT/IDFT, schoolbook
+//! polynomial arithmetic, Horner evaluation, long division by X^n - 1 (no
+//! cosets at all), commitments as explicit sums, the Fiat-Shamir transcript from
+//! a literal (label, item) table. Only field / group primitives of
+//! dusk-bls12_381 and merlin are used. Restricted to n <= 64.
+
+use std::collections::HashMap;
+use std::sync::Mutex;
+
+use dusk_bls12_381::{G1Affine, G1Projective, ROOT_OF_UNITY, TWO_ADACITY};
+use dusk_bytes::Serializable;
+use dusk_plonk::verif::Snapshot;
+use merlin::Transcript;
+
+use crate::fe::*;
+
+// ---------------------------------------------------------------------------
+// naive polynomial kernel (coefficient vectors, lowest degree first)
+// ---------------------------------------------------------------------------
+
+pub type Poly = Vec<Fe>;
+
+pub fn ptrim(a: &[Fe]) -> Poly {
+    let mut v = a.to_vec();
+    while v.last().map_or(false, |c| *c == zero()) {
+        v.pop();
+    }
+    v
+}
+pub fn padd(a: &[Fe], b: &[Fe]) -> Poly {
+    let mut r = vec![zero(); a.len().max(b.len())];
+    for (i, c) in a.iter().enumerate() {
+        r[i] += c;
+    }
+    for (i, c) in b.iter().enumerate() {
+        r[i] += c;
+    }
+    r
+}
+pub fn psub(a: &[Fe], b: &[Fe]) -> Poly {
+    let mut r = vec![zero(); a.len().max(b.len())];
+    for (i, c) in a.iter().enumerate() {
+        r[i] += c;
+    }
+    for (i, c) in b.iter().enumerate() {
+        r[i] -= c;
+    }
+    r
+}
+pub fn pscale(a: &[Fe], k: Fe) -> Poly {
+    a.iter().map(|c| *c * k).collect()
+}
+/// a + k (constant)
+pub fn paddc(a: &[Fe], k: Fe) -> Poly {
+    padd(a, &[k])
+}
+/// schoolbook product
+pub fn pmul(a: &[Fe], b: &[Fe]) -> Poly {
+    let a = ptrim(a);
+    let b = ptrim(b);
+    if a.is_empty() || b.is_empty() {
+        return vec![];
+    }
+    let mut r = vec![zero(); a.len() + b.len() - 1];
+    for (i, x) in a.iter().enumerate() {
+        if *x == zero() {
+            continue;
+        }
+        for (j, y) in b.iter().enumerate() {
+            r[i + j] += *x * *y;
+        }
+    }
+    r
+}
+/// Horner evaluation
+pub fn peval(a: &[Fe], x: Fe) -> Fe {
+    let mut acc = zero();
+    for c in a.iter().rev() {
+        acc = acc * x + *c;
+    }
+    acc
+}
+/// a(wX)
+pub fn pshift(a: &[Fe], w: Fe) -> Poly {
+    let mut p = one();
+    let mut r = Vec::with_capacity(a.len());
+    for c in a {
+        r.push(*c * p);
+        p *= w;
+    }
+    r
+}
+pub fn fpow(x: Fe, mut e: u64) -> Fe {
+    let mut base = x;
+    let mut r = one();
+    while e > 0 {
+        if e & 1 == 1 {
+            r *= base;
+        }
+        base = base * base;
+        e >>= 1;
+    }
+    r
+}
+/// Long division by X^n - 1: (quotient, remainder), remainder has n coefficients.
+pub fn pdiv_zh(a: &[Fe], n: usize) -> (Poly, Poly) {
+    let mut c = a.to_vec();
+    if c.len() <= n {
+        c.resize(n, zero());
+        return (vec![], c);
+    }
+    let mut q = vec![zero(); c.len() - n];
+    for i in (n..c.len()).rev() {
+        let t = c[i];
+        q[i - n] = t;
+        c[i] = zero();
+        c[i - n] += t;
+    }
+    c.truncate(n);
+    (q, c)
+}
+/// Division by (X - z): (quotient, remainder).
+pub fn pdiv_linear(a: &[Fe], z: Fe) -> (Poly, Fe) {
+    if a.is_empty() {
+        return (vec![], zero());
+    }
+    let mut q = vec![zero(); a.len() - 1];
+    let mut carry = zero();
+    for i in (0..a.len()).rev() {
+        let t = a[i] + carry;
+        if i == 0 {
+            return (q, t);
+        }
+        q[i - 1] = t;
+        carry = t * z;
+    }
+    unreachable!()
+}
+
+/// Generator of the 2^k-element subgroup: ROOT_OF_UNITY squared down.
+pub fn omega_for(n: usize) -> Fe {
+    assert!(n.is_power_of_two() && n >= 2);
+    let k = n.trailing_zeros();
+    let mut g = ROOT_OF_UNITY;
+    for _ in k..TWO_ADACITY {
+        g = g * g;
+    }
+    assert!(fpow(g, n as u64) == one() && fpow(g, (n / 2) as u64) == neg1(), "omega is a primitive n-th root");
+    g
+}
+pub fn domain_points(n: usize) -> Vec<Fe> {
+    let w = omega_for(n);
+    let mut v = Vec::with_capacity(n);
+    let mut p = one();
+    for _ in 0..n {
+        v.push(p);
+        p *= w;
+    }
+    v
+}
+/// evaluations on the domain by Horner at every point
+pub fn dft(coeffs: &[Fe], pts: &[Fe]) -> Vec<Fe> {
+    pts.iter().map(|x| peval(coeffs, *x)).collect()
+}
+/// interpolation: c_k = n^-1 * sum_i e_i * w^(-i k)
+pub fn idft(evals: &[Fe], pts: &[Fe]) -> Poly {
+    let n = pts.len();
+    assert_eq!(evals.len(), n);
+    let ninv = inv(fe(n as u64));
+    (0..n)
+        .map(|k| {
+            let mut s = zero();
+            for i in 0..n {
+                // w^(-ik) = pts[(n - (i*k mod n)) mod n]
+                let e = (n - (i * k) % n) % n;
+                s += evals[i] * pts[e];
+            }
+            s * ninv
+        })
+        .collect()
+}
+
+// ---------------------------------------------------------------------------
+// parsing the real keys
+// ---------------------------------------------------------------------------
+
+/// Selector order: q_m,q_l,q_r,q_o,q_f,q_c,q_arith,q_range,q_logic,q_fixed,q_var
+/// (the order of `GateRow::q` / `m1::QM..QVAR`). `vk_commitments` holds the
+/// eleven selector commitments in the same order followed by s_sigma_1..4.
+#[derive(Clone, Debug)]
+pub struct ProverData {
+    pub label: Vec<u8>,
+    pub size: usize,
+    pub constraints: usize,
+    pub selectors: [Vec<Fe>; 11],
+    pub sigmas: [Vec<Fe>; 4],
+    pub commit_key: Vec<G1Affine>,
+    pub vk_commitments: [G1Affine; 15],
+    pub vk_n: usize,
+}
+
+struct Rd<'a> {
+    b: &'a [u8],
+    p: usize,
+}
+impl<'a> Rd<'a> {
+    fn take(&mut self, n: usize) -> Result<&'a [u8], String> {
+        if self.b.len() - self.p < n {
+            return Err(format!("truncated: need {} bytes at offset {}, have {}", n, self.p, self.b.len() - self.p));
+        }
+        let s = &self.b[self.p..self.p + n];
+        self.p += n;
+        Ok(s)
+    }
+    fn u64be(&mut self) -> Result<usize, String> {
+        Ok(u64::from_be_bytes(self.take(8)?.try_into().unwrap()) as usize)
+    }
+    fn u64le(&mut self) -> Result<usize, String> {
+        Ok(u64::from_le_bytes(self.take(8)?.try_into().unwrap()) as usize)
+    }
+    fn fe(&mut self) -> Result<Fe, String> {
+        let b: [u8; 32] = self.take(32)?.try_into().unwrap();
+        Option::<Fe>::from(Fe::from_bytes(&b)).ok_or_else(|| "non-canonical scalar".to_string())
+    }
+    fn rest(&self) -> usize {
+        self.b.len() - self.p
+    }
+}
+
+/// Position of the serialized selector k (q_m,q_l,q_r,q_o,q_f,q_c,q_arith,
+/// q_logic,q_range,q_fixed,q_var) in the M1 order.
+const SERIAL_TO_M1: [usize; 11] = [0, 1, 2, 3, 4, 5, 6, 8, 7, 9, 10];
+
+pub fn parse_prover(bytes: &[u8]) -> Result<ProverData, String> {
+    let mut r = Rd { b: bytes, p: 0 };
+    let label_len = r.u64be()?;
+    let pk_len = r.u64be()?;
+    let ck_len = r.u64be()?;
+    let vk_len = r.u64be()?;
+    let size = r.u64be()?;
+    let constraints = r.u64be()?;
+    let label = r.take(label_len)?.to_vec();
+    let pk = r.take(pk_len)?;
+    let ck = r.take(ck_len)?;
+    let vk = r.take(vk_len)?;
+
+    // --- prover key: u64 n, u64 evaluation-block size, then per polynomial
+    // (u64 coefficient count, coefficients, one evaluation block); finally two
+    // bare evaluation blocks (linear evaluations, vanishing polynomial).
+    let mut p = Rd { b: pk, p: 0 };
+    let n = p.u64le()?;
+    let eval_size = p.u64le()?;
+    if n != size {
+        return Err(format!("prover key n {} != size {}", n, size));
+    }
+    let mut polys: Vec<Vec<Fe>> = Vec::new();
+    for _ in 0..15 {
+        let len = p.u64le()?;
+        if len > n {
+            return Err(format!("polynomial longer than n: {}", len));
+        }
+        let mut c = Vec::with_capacity(len);
+        for _ in 0..len {
+            c.push(p.fe()?);
+        }
+        p.take(eval_size)?;
+        polys.push(c);
+    }
+    p.take(eval_size)?;
+    p.take(eval_size)?;
+    // `ProverKey::to_var_bytes` sizes its buffer as if all 15 polynomials had
+    // q_m's length, so shorter polynomials leave zero padding at the end.
+    let tail = p.rest();
+    if p.take(tail)?.iter().any(|b| *b != 0) {
+        return Err(format!("{} trailing non-zero bytes in prover key", tail));
+    }
+    let mut selectors: [Vec<Fe>; 11] = Default::default();
+    for k in 0..11 {
+        selectors[SERIAL_TO_M1[k]] = polys[k].clone();
+    }
+    let sigmas: [Vec<Fe>; 4] = [polys[11].clone(), polys[12].clone(), polys[13].clone(), polys[14].clone()];
+
+    // --- commit key: LE u64 count, then raw affine points (97 bytes)
+    let mut c = Rd { b: ck, p: 0 };
+    let count = c.u64le()?;
+    let mut commit_key = Vec::with_capacity(count);
+    for i in 0..count {
+        let raw = c.take(G1Affine::RAW_SIZE)?;
+        let flag = raw[G1Affine::RAW_SIZE - 1];
+        if flag > 1 {
+            return Err(format!("commit key point {}: flag byte {}", i, flag));
+        }
+        let pt = unsafe { G1Affine::from_slice_unchecked(raw) };
+        if !bool::from(pt.is_on_curve()) {
+            return Err(format!("commit key point {} not on curve", i));
+        }
+        commit_key.push(pt);
+    }
+    if c.rest() != 0 {
+        return Err("trailing bytes in commit key".into());
+    }
+
+    // --- verifier key: LE u64 n, 15 compressed commitments (rest is padding)
+    let mut v = Rd { b: vk, p: 0 };
+    let vk_n = v.u64le()?;
+    let mut comms = Vec::new();
+    for i in 0..15 {
+        let b: [u8; 48] = v.take(48)?.try_into().unwrap();
+        comms.push(G1Affine::from_bytes(&b).map_err(|e| format!("vk commitment {} undecodable: {:?}", i, e))?);
+    }
+    let mut vk_commitments = [G1Affine::identity(); 15];
+    for k in 0..11 {
+        vk_commitments[SERIAL_TO_M1[k]] = comms[k];
+    }
+    for k in 11..15 {
+        vk_commitments[k] = comms[k];
+    }
+    Ok(ProverData { label, size, constraints, selectors, sigmas, commit_key, vk_commitments, vk_n })
+}
+
+// ---------------------------------------------------------------------------
+// instance
+// ---------------------------------------------------------------------------
+
+#[derive(Clone, Debug)]
+pub struct Instance {
+    /// wire values a,b,c,d per row (length = constraints)
+    pub wires: Vec<[Fe; 4]>,
+    /// public-input rows (row, value), ascending rows
+    pub pis: Vec<(usize, Fe)>,
+}
+impl Instance {
+    pub fn from_snapshot(s: &Snapshot) -> Self {
+        let wires = s.gates.iter().map(|g| [s.witnesses[g.w[0]], s.witnesses[g.w[1]], s.witnesses[g.w[2]], s.witnesses[g.w[3]]]).collect();
+        let mut pis = s.public_inputs.clone();
+        pis.sort_by_key(|(r, _)| *r);
+        Instance { wires, pis }
+    }
+    pub fn pi_values(&self) -> Vec<Fe> {
+        self.pis.iter().map(|(_, v)| *v).collect()
+    }
+}
+
+#[derive(Clone, Copy, Debug, PartialEq, Eq)]
+pub enum Version {
+    V2,
+    V3,
+}
+
+// ---------------------------------------------------------------------------
+// transcript (Appendix A.2) from a literal table
+// ---------------------------------------------------------------------------
+
+fn static_label(label: &[u8]) -> &'static [u8] {
+    static CACHE: Mutex<Option<HashMap<Vec<u8>, &'static [u8]>>> = Mutex::new(None);
+    let mut g = CACHE.lock().unwrap_or_else(|e| e.into_inner());
+    let m = g.get_or_insert_with(HashMap::new);
+    if let Some(l) = m.get(label) {
+        return l;
+    }
+    let l: &'static [u8] = Box::leak(label.to_vec().into_boxed_slice());
+    m.insert(label.to_vec(), l);
+    l
+}
+
+/// (transcript label, index into `ProverData::vk_commitments`) in seeding order.
+pub const SEED_TABLE_V3: [(&[u8], usize); 15] = [
+    (b"q_m", 0),
+    (b"q_l", 1),
+    (b"q_r", 2),
+    (b"q_o", 3),
+    (b"q_c", 5),
+    (b"q_f", 4),
+    (b"q_arith", 6),
+    (b"q_range", 7),
+    (b"q_logic", 8),
+    (b"q_variable_group_add", 10),
+    (b"q_fixed_group_add", 9),
+    (b"s_sigma_1", 11),
+    (b"s_sigma_2", 12),
+    (b"s_sigma_3", 13),
+    (b"s_sigma_4", 14),
+];
+
+/// Proof field indices (order of `Proof::to_bytes`).
+pub const C_A: usize = 0;
+pub const C_B: usize = 1;
+pub const C_C: usize = 2;
+pub const C_D: usize = 3;
+pub const C_Z: usize = 4;
+pub const C_TLOW: usize = 5;
+pub const C_TMID: usize = 6;
+pub const C_THIGH: usize = 7;
+pub const C_TFOURTH: usize = 8;
+pub const C_WZ: usize = 9;
+pub const C_WZW: usize = 10;
+pub const COMM_NAMES: [&str; 11] =
+    ["a_comm", "b_comm", "c_comm", "d_comm", "z_comm", "t_low_comm", "t_mid_comm", "t_high_comm", "t_fourth_comm", "w_z_chall_comm", "w_z_chall_w_comm"];
+
+pub const E_A: usize = 0;
+pub const E_B: usize = 1;
+pub const E_C: usize = 2;
+pub const E_D: usize = 3;
+pub const E_AW: usize = 4;
+pub const E_BW: usize = 5;
+pub const E_DW: usize = 6;
+pub const E_QARITH: usize = 7;
+pub const E_QC: usize = 8;
+pub const E_QL: usize = 9;
+pub const E_QR: usize = 10;
+pub const E_S1: usize = 11;
+pub const E_S2: usize = 12;
+pub const E_S3: usize = 13;
+pub const E_Z: usize = 14;
+pub const EVAL_NAMES: [&str; 15] = [
+    "a_eval", "b_eval", "c_eval", "d_eval", "a_w_eval", "b_w_eval", "d_w_eval", "q_arith_eval", "q_c_eval", "q_l_eval", "q_r_eval", "s_sigma_1_eval",
+    "s_sigma_2_eval", "s_sigma_3_eval", "z_eval",
+];
+/// Order in which the evaluations are absorbed: (label, proof eval index).
+pub const EVAL_ABSORB: [(&[u8], usize); 15] = [
+    (b"a_eval", E_A),
+    (b"b_eval", E_B),
+    (b"c_eval", E_C),
+    (b"d_eval", E_D),
+    (b"s_sigma_1_eval", E_S1),
+    (b"s_sigma_2_eval", E_S2),
+    (b"s_sigma_3_eval", E_S3),
+    (b"z_eval", E_Z),
+    (b"a_w_eval", E_AW),
+    (b"b_w_eval", E_BW),
+    (b"d_w_eval", E_DW),
+    (b"q_arith_eval", E_QARITH),
+    (b"q_c_eval", E_QC),
+    (b"q_l_eval", E_QL),
+    (b"q_r_eval", E_QR),
+];
+
+pub struct Fs(Transcript);
+impl Fs {
+    pub fn seeded(pd: &ProverData, pis: &[Fe], ver: Version) -> Self {
+        let mut t = Transcript::new(static_label(&pd.label));
+        t.append_message(b"dom-sep", b"circuit_size");
+        t.append_u64(b"n", pd.constraints as u64);
+        let mut fs = Fs(t);
+        for (label, idx) in SEED_TABLE_V3.iter() {
+            // V1/V2: the s_sigma_4 slot carries s_sigma_1 again
+            let idx = if ver == Version::V2 && *label == b"s_sigma_4" { 11 } else { *idx };
+            fs.point(label, &pd.vk_commitments[idx]);
+        }
+        fs.0.append_message(b"dom-sep", b"circuit_size");
+        fs.0.append_u64(b"n", pd.vk_n as u64);
+        for pi in pis {
+            fs.scalar(b"pi", pi);
+        }
+        fs
+    }
+    pub fn point(&mut self, label: &'static [u8], p: &G1Affine) {
+        self.0.append_message(label, &p.to_bytes());
+    }
+    pub fn scalar(&mut self, label: &'static [u8], s: &Fe) {
+        self.0.append_message(label, &s.to_bytes());
+    }
+    pub fn challenge(&mut self, label: &'static [u8]) -> Fe {
+        let mut buf = [0u8; 64];
+        self.0.challenge_bytes(label, &mut buf);
+        Fe::from_bytes_wide(&buf)
+    }
+}
+
+#[derive(Clone, Copy, Debug, Default, PartialEq, Eq)]
+pub struct Challenges {
+    pub beta: Fe,
+    pub gamma: Fe,
+    pub alpha: Fe,
+    pub range_sep: Fe,
+    pub logic_sep: Fe,
+    pub fixed_sep: Fe,
+    pub var_sep: Fe,
+    pub z: Fe,
+    pub v: Fe,
+    pub v_w: Fe,
+    pub u: Fe,
+}
+
+/// Decoded proof: 11 commitments, 15 evaluations (proof order).
+#[derive(Clone, Debug)]
+pub struct ProofFields {
+    pub comms: [G1Affine; 11],
+    pub evals: [Fe; 15],
+}
+pub fn decode_proof(bytes: &[u8]) -> Result<ProofFields, String> {
+    if bytes.len() != 1008 {
+        return Err(format!("proof length {}", bytes.len()));
+    }
+    let mut comms = [G1Affine::identity(); 11];
+    for i in 0..11 {
+        let b: [u8; 48] = bytes[i * 48..i * 48 + 48].try_into().unwrap();
+        comms[i] = G1Affine::from_bytes(&b).map_err(|e| format!("commitment {}: {:?}", i, e))?;
+    }
+    let mut evals = [zero(); 15];
+    for i in 0..15 {
+        let o = 11 * 48 + i * 32;
+        let b: [u8; 32] = bytes[o..o + 32].try_into().unwrap();
+        evals[i] = Option::<Fe>::from(Fe::from_bytes(&b)).ok_or_else(|| format!("eval {} non-canonical", i))?;
+    }
+    Ok(ProofFields { comms, evals })
+}
+
+/// Verifier-style re-derivation of every challenge from proof bytes (the
+/// transcript table only; no prover state).
+pub fn challenges_from_proof(pd: &ProverData, proof: &ProofFields, pis: &[Fe], ver: Version) -> Challenges {
+    let mut fs = Fs::seeded(pd, pis, ver);
+    let mut ch = Challenges::default();
+    fs.point(b"a_comm", &proof.comms[C_A]);
+    fs.point(b"b_comm", &proof.comms[C_B]);
+    fs.point(b"c_comm", &proof.comms[C_C]);
+    fs.point(b"d_comm", &proof.comms[C_D]);
+    ch.beta = fs.challenge(b"beta");
+    fs.scalar(b"beta", &ch.beta);
+    ch.gamma = fs.challenge(b"gamma");
+    fs.point(b"z_comm", &proof.comms[C_Z]);
+    ch.alpha = fs.challenge(b"alpha");
+    ch.range_sep = fs.challenge(b"range separation challenge");
+    ch.logic_sep = fs.challenge(b"logic separation challenge");
+    ch.fixed_sep = fs.challenge(b"fixed base separation challenge");
+    ch.var_sep = fs.challenge(b"variable base separation challenge");
+    fs.point(b"t_low_comm", &proof.comms[C_TLOW]);
+    fs.point(b"t_mid_comm", &proof.comms[C_TMID]);
+    fs.point(b"t_high_comm", &proof.comms[C_THIGH]);
+    fs.point(b"t_fourth_comm", &proof.comms[C_TFOURTH]);
+    ch.z = fs.challenge(b"z_challenge");
+    for (label, idx) in EVAL_ABSORB.iter() {
+        fs.scalar(label, &proof.evals[*idx]);
+    }
+    ch.v = fs.challenge(b"v_challenge");
+    ch.v_w = fs.challenge(b"v_w_challenge");
+    fs.point(b"w_z_chall_comm", &proof.comms[C_WZ]);
+    fs.point(b"w_z_chall_w_comm", &proof.comms[C_WZW]);
+    ch.u = fs.challenge(b"u_challenge");
+    ch
+}
+
+// ---------------------------------------------------------------------------
+// commitments
+// ---------------------------------------------------------------------------
+
+/// Σ c_i · P_i, term by term.
+pub fn commit(key: &[G1Affine], poly: &[Fe]) -> Result<G1Affine, String> {
+    let p = ptrim(poly);
+    if p.len() > key.len() {
+        return Err(format!("polynomial degree {} exceeds commit key ({} points)", p.len() - 1, key.len()));
+    }
+    let mut acc = G1Projective::identity();
+    for (c, pt) in p.iter().zip(key.iter()) {
+        if *c == zero() {
+            continue;
+        }
+        acc += G1Projective::from(*pt) * *c;
+    }
+    Ok(G1Affine::from(acc))
+}
+
+// ---------------------------------------------------------------------------
+// gate identities, generic over "polynomial or constant" (constants are
+// polynomials of length one), Appendix A.1 with the A.3 weights
+// ---------------------------------------------------------------------------
+
+pub struct WireSet<'a> {
+    pub a: &'a [Fe],
+    pub b: &'a [Fe],
+    pub c: &'a [Fe],
+    pub d: &'a [Fe],
+    pub aw: &'a [Fe],
+    pub bw: &'a [Fe],
+    pub dw: &'a [Fe],
+}
+
+fn edwards_d() -> Fe {
+    -(fe(10240) * inv(fe(10241)))
+}
+fn pdelta(f: &[Fe]) -> Poly {
+    let f1 = paddc(f, -fe(1));
+    let f2 = paddc(f, -fe(2));
+    let f3 = paddc(f, -fe(3));
+    pmul(&pmul(f, &f1), &pmul(&f2, &f3))
+}
+/// f - 4 g
+fn pquad(f: &[Fe], g: &[Fe]) -> Poly {
+    psub(f, &pscale(g, fe(4)))
+}
+fn sum(ps: &[Poly]) -> Poly {
+    let mut r = vec![];
+    for p in ps {
+        r = padd(&r, p);
+    }
+    r
+}
+
+pub fn range_identity(w: &WireSet, sep: Fe) -> Poly {
+    let k = sep * sep;
+    sum(&[
+        pdelta(&pquad(w.c, w.d)),
+        pscale(&pdelta(&pquad(w.b, w.c)), k),
+        pscale(&pdelta(&pquad(w.a, w.b)), k * k),
+        pscale(&pdelta(&pquad(w.dw, w.a)), k * k * k),
+    ])
+}
+pub fn logic_identity(w: &WireSet, q_c: &[Fe], sep: Fe) -> Poly {
+    let k = sep * sep;
+    let a = pquad(w.aw, w.a);
+    let b = pquad(w.bw, w.b);
+    let e = pquad(w.dw, w.d);
+    let wv = w.c;
+    let ab = padd(&a, &b);
+    // F = w[w(4w - 18(A+B) + 81) + 18(A^2+B^2) - 81(A+B) + 83]
+    let inner = paddc(&psub(&pscale(wv, fe(4)), &pscale(&ab, fe(18))), fe(81));
+    let sq = padd(&pmul(&a, &a), &pmul(&b, &b));
+    let mid = paddc(&psub(&padd(&pmul(wv, &inner), &pscale(&sq, fe(18))), &pscale(&ab, fe(81))), fe(83));
+    let f = pmul(wv, &mid);
+    // op = q_c(9E - 3(A+B)) + 3(A+B+E) - 2F
+    let op = psub(
+        &padd(&pmul(q_c, &psub(&pscale(&e, fe(9)), &pscale(&ab, fe(3)))), &pscale(&padd(&ab, &e), fe(3))),
+        &pscale(&f, fe(2)),
+    );
+    let k2 = k * k;
+    sum(&[pdelta(&a), pscale(&pdelta(&b), k), pscale(&pdelta(&e), k2), pscale(&psub(wv, &pmul(&a, &b)), k2 * k), pscale(&op, k2 * k2)])
+}
+pub fn fixed_identity(w: &WireSet, q_l: &[Fe], q_r: &[Fe], q_c: &[Fe], sep: Fe) -> Poly {
+    let k = sep * sep;
+    let dd = edwards_d();
+    let bit = psub(w.dw, &pscale(w.d, fe(2)));
+    let bit_ok = pmul(&pmul(&bit, &paddc(&bit, neg1())), &paddc(&bit, one()));
+    let y_alpha = paddc(&pmul(&pmul(&bit, &bit), &paddc(q_r, neg1())), one());
+    let x_alpha = pmul(&bit, q_l);
+    let xy = psub(&pmul(&bit, q_c), w.c);
+    let cab_d = pscale(&pmul(&pmul(w.c, w.a), w.b), dd);
+    let x_acc = psub(&padd(w.aw, &pmul(w.aw, &cab_d)), &padd(&pmul(w.a, &y_alpha), &pmul(w.b, &x_alpha)));
+    let y_acc = psub(&psub(w.bw, &pmul(w.bw, &cab_d)), &padd(&pmul(w.b, &y_alpha), &pmul(w.a, &x_alpha)));
+    sum(&[bit_ok, pscale(&xy, k), pscale(&x_acc, k * k), pscale(&y_acc, k * k * k)])
+}
+pub fn var_identity(w: &WireSet, sep: Fe) -> Poly {
+    let k = sep * sep;
+    let dd = edwards_d();
+    let xy = psub(&pmul(w.a, w.d), w.dw);
+    let bc = pmul(w.b, w.c);
+    let prod = pscale(&pmul(w.dw, &bc), dd); // D * d' * b * c
+    let x3 = psub(&padd(w.dw, &bc), &pmul(w.aw, &paddc(&prod, one())));
+    let y3 = psub(&padd(&pmul(w.b, w.d), &pmul(w.a, w.c)), &pmul(w.bw, &psub(&[one()], &prod)));
+    sum(&[xy, pscale(&x3, k), pscale(&y3, k * k)])
+}
+
+// ---------------------------------------------------------------------------
+// the prover
+// ---------------------------------------------------------------------------
+
+#[derive(Clone, Copy, Debug, PartialEq, Eq)]
+pub enum Stage {
+    /// blinded wire polynomials are in place, not yet committed
+    Wires,
+    /// blinded permutation polynomial in place, not yet committed
+    Perm,
+    /// the four (re-randomised) quotient shares in place, not yet committed
+    Quotient,
+    /// the 15 evaluations computed, not yet absorbed
+    Evals,
+    /// r, W_z and W_zw polynomials computed, not yet committed
+    Openings,
+}
+
+/// Deviations of the adversarial prover (C02). Default = honest.
+#[derive(Default)]
+pub struct Adversary {
+    /// if the numerator is not divisible by Z_H, keep the quotient and drop the
+    /// remainder instead of failing
+    pub drop_remainder: bool,
+    /// (proof eval index `E_*`, value): replace individual evaluations after
+    /// they are computed and before they are absorbed into the transcript (so
+    /// v, v_w, r, W_z, W_zw follow the forged values) ...
+    pub eval_overrides: Vec<(usize, Fe)>,
+    /// ... unless `patch_only` is set: then nothing else is recomputed, the
+    /// honest proof is produced and only the evaluation fields of the output
+    /// bytes are replaced.
+    pub patch_only: bool,
+    /// called at `Stage::Evals` (after `eval_overrides`), with challenges up to
+    /// z and all polynomials available; may rewrite `evals`.
+    pub forge: Option<Box<dyn Fn(&mut Intermediates) + Send + Sync>>,
+    /// general hook, called at every stage before the stage's data is
+    /// committed / absorbed.
+    pub stage_hook: Option<Box<dyn Fn(Stage, &mut Intermediates) + Send + Sync>>,
+}
+
+#[derive(Clone, Debug, Default)]
+pub struct Intermediates {
+    pub n: usize,
+    pub omega: Fe,
+    pub domain: Vec<Fe>,
+    /// padded wire columns a,b,c,d (evaluations on the domain)
+    pub wire_vals: [Vec<Fe>; 4],
+    pub pi_dense: Vec<Fe>,
+    pub pi_poly: Poly,
+    pub wire_polys_unblinded: [Poly; 4],
+    /// blinded wire polynomials (n + 2 coefficients)
+    pub wire_polys: [Poly; 4],
+    pub sigma_evals: [Vec<Fe>; 4],
+    /// grand product on the domain, z_vec[0] = 1
+    pub z_vec: Vec<Fe>,
+    pub z_poly_unblinded: Poly,
+    /// blinded permutation polynomial (n + 3 coefficients)
+    pub z_poly: Poly,
+    pub numerator: Poly,
+    pub quotient: Poly,
+    /// remainder of numerator / Z_H (all zero for a satisfied instance)
+    pub remainder: Poly,
+    pub remainder_dropped: bool,
+    /// quotient shares before re-randomisation
+    pub t_chunks_raw: [Poly; 4],
+    /// quotient shares as committed
+    pub t_chunks: [Poly; 4],
+    pub ch: Challenges,
+    /// proof order (`E_*`)
+    pub evals: [Fe; 15],
+    /// evaluations before overrides / forging
+    pub honest_evals: [Fe; 15],
+    pub pi_eval: Fe,
+    pub l1_eval: Fe,
+    pub zh_eval: Fe,
+    pub r_poly: Poly,
+    pub w_z_poly: Poly,
+    pub w_zw_poly: Poly,
+    /// proof order (`C_*`)
+    pub comms: [G1Affine; 11],
+    pub draws: [Fe; 14],
+}
+
+pub const K1: u64 = 7;
+pub const K2: u64 = 13;
+pub const K3: u64 = 17;
+
+fn blind(unblinded: &[Fe], blinders: &[Fe], n: usize) -> Poly {
+    // mask = (b0 + b1 X + ...) * (X^n - 1)
+    let mut c = unblinded.to_vec();
+    c.resize(n, zero());
+    for (i, b) in blinders.iter().enumerate() {
+        c[i] -= *b;
+        c.push(*b);
+    }
+    c
+}
+
+pub fn serialize(comms: &[G1Affine; 11], evals: &[Fe; 15]) -> Vec<u8> {
+    let mut out = Vec::with_capacity(1008);
+    for c in comms {
+        out.extend_from_slice(&c.to_bytes());
+    }
+    for e in evals {
+        out.extend_from_slice(&e.to_bytes());
+    }
+    out
+}
+
+pub fn prove(pd: &ProverData, inst: &Instance, draws: &[Fe; 14], ver: Version, adv: &Adversary) -> Result<(Vec<u8>, Intermediates), String> {
+    let n = pd.size;
+    assert!(n <= 64, "M3 is restricted to n <= 64");
+    if n < 4 || !n.is_power_of_two() || pd.constraints.next_power_of_two() != n {
+        return Err("bad sizes".into());
+    }
+    if inst.wires.len() != pd.constraints {
+        return Err(format!("size mismatch: instance {} rows, compiled {}", inst.wires.len(), pd.constraints));
+    }
+    let hook = |s: Stage, im: &mut Intermediates| {
+        if let Some(h) = &adv.stage_hook {
+            h(s, im);
+        }
+    };
+    let key = &pd.commit_key;
+    let mut im = Intermediates { n, draws: *draws, ..Default::default() };
+    im.omega = omega_for(n);
+    im.domain = domain_points(n);
+    let pts = im.domain.clone();
+    let w = im.omega;
+
+    let pis = inst.pi_values();
+    let mut fs = Fs::seeded(pd, &pis, ver);
+
+    // ---- round 1: wires
+    for k in 0..4 {
+        let mut col = vec![zero(); n];
+        for (i, row) in inst.wires.iter().enumerate() {
+            col[i] = row[k];
+        }
+        im.wire_polys_unblinded[k] = idft(&col, &pts);
+        im.wire_polys[k] = blind(&im.wire_polys_unblinded[k], &draws[2 * k..2 * k + 2], n);
+        im.wire_vals[k] = col;
+    }
+    im.pi_dense = vec![zero(); n];
+    for (r, v) in &inst.pis {
+        if *r >= n {
+            return Err("public input row out of range".into());
+        }
+        im.pi_dense[*r] = *v;
+    }
+    im.pi_poly = idft(&im.pi_dense, &pts);
+    hook(Stage::Wires, &mut im);
+    for k in 0..4 {
+        im.comms[C_A + k] = commit(key, &im.wire_polys[k])?;
+    }
+    fs.point(b"a_comm", &im.comms[C_A]);
+    fs.point(b"b_comm", &im.comms[C_B]);
+    fs.point(b"c_comm", &im.comms[C_C]);
+    fs.point(b"d_comm", &im.comms[C_D]);
+
+    // ---- round 2: permutation
+    im.ch.beta = fs.challenge(b"beta");
+    let beta = im.ch.beta;
+    fs.scalar(b"beta", &beta);
+    im.ch.gamma = fs.challenge(b"gamma");
+    let gamma = im.ch.gamma;
+    for k in 0..4 {
+        im.sigma_evals[k] = dft(&pd.sigmas[k], &pts);
+    }
+    let ks = [one(), fe(K1), fe(K2), fe(K3)];
+    let mut zv = Vec::with_capacity(n);
+    let mut acc = one();
+    for i in 0..n {
+        zv.push(acc);
+        if i + 1 < n {
+            let mut num = one();
+            let mut den = one();
+            for k in 0..4 {
+                num *= im.wire_vals[k][i] + beta * ks[k] * pts[i] + gamma;
+                den *= im.wire_vals[k][i] + beta * im.sigma_evals[k][i] + gamma;
+            }
+            if den == zero() {
+                return Err("permutation denominator is zero".into());
+            }
+            acc *= num * inv(den);
+        }
+    }
+    im.z_vec = zv;
+    im.z_poly_unblinded = idft(&im.z_vec, &pts);
+    im.z_poly = blind(&im.z_poly_unblinded, &draws[8..11], n);
+    hook(Stage::Perm, &mut im);
+    im.comms[C_Z] = commit(key, &im.z_poly)?;
+    fs.point(b"z_comm", &im.comms[C_Z]);
+
+    // ---- round 3: quotient
+    im.ch.alpha = fs.challenge(b"alpha");
+    im.ch.range_sep = fs.challenge(b"range separation challenge");
+    im.ch.logic_sep = fs.challenge(b"logic separation challenge");
+    im.ch.fixed_sep = fs.challenge(b"fixed base separation challenge");
+    im.ch.var_sep = fs.challenge(b"variable base separation challenge");
+    let alpha = im.ch.alpha;
+    {
+        let [a, b, c, d] = &im.wire_polys;
+        let aw = pshift(a, w);
+        let bw = pshift(b, w);
+        let dw = pshift(d, w);
+        let ws = WireSet { a, b, c, d, aw: &aw, bw: &bw, dw: &dw };
+        let q = &pd.selectors;
+        // arithmetic + PI
+        let arith_inner = sum(&[
+            pmul(&pmul(a, b), &q[0]),
+            pmul(a, &q[1]),
+            pmul(b, &q[2]),
+            pmul(c, &q[3]),
+            pmul(d, &q[4]),
+            q[5].clone(),
+        ]);
+        let mut num = padd(&pmul(&q[6], &arith_inner), &im.pi_poly);
+        num = padd(&num, &pscale(&pmul(&q[7], &range_identity(&ws, im.ch.range_sep)), im.ch.range_sep));
+        num = padd(&num, &pscale(&pmul(&q[8], &logic_identity(&ws, &q[5], im.ch.logic_sep)), im.ch.logic_sep));
+        num = padd(&num, &pscale(&pmul(&q[9], &fixed_identity(&ws, &q[1], &q[2], &q[5], im.ch.fixed_sep)), im.ch.fixed_sep));
+        num = padd(&num, &pscale(&pmul(&q[10], &var_identity(&ws, im.ch.var_sep)), im.ch.var_sep));
+        // permutation
+        let wires = [a, b, c, d];
+        let mut id_side = im.z_poly.clone();
+        let mut copy_side = pshift(&im.z_poly, w);
+        for k in 0..4 {
+            // wire + beta*k*X + gamma
+            let f = padd(wires[k], &[gamma, beta * ks[k]]);
+            id_side = pmul(&id_side, &f);
+            let g = paddc(&padd(wires[k], &pscale(&pd.sigmas[k], beta)), gamma);
+            copy_side = pmul(&copy_side, &g);
+        }
+        num = padd(&num, &pscale(&psub(&id_side, &copy_side), alpha));
+        // alpha^2 * L1(X) * (z(X) - 1), L1 = (1/n)(1 + X + ... + X^(n-1))
+        let l1 = vec![inv(fe(n as u64)); n];
+        num = padd(&num, &pscale(&pmul(&l1, &paddc(&im.z_poly, neg1())), alpha * alpha));
+        im.numerator = ptrim(&num);
+    }
+    let (quot, rem) = pdiv_zh(&im.numerator, n);
+    im.quotient = quot;
+    im.remainder = rem;
+    if im.remainder.iter().any(|c| *c != zero()) {
+        if !adv.drop_remainder {
+            return Err("unsatisfied".into());
+        }
+        im.remainder_dropped = true;
+    }
+    {
+        let mut t = im.quotient.clone();
+        if t.len() < 3 * n {
+            t.resize(3 * n, zero());
+        }
+        im.t_chunks_raw = [t[0..n].to_vec(), t[n..2 * n].to_vec(), t[2 * n..3 * n].to_vec(), t[3 * n..].to_vec()];
+        let (b12, b13, b14) = (draws[11], draws[12], draws[13]);
+        let mut ch = im.t_chunks_raw.clone();
+        if ch[3].is_empty() {
+            ch[3].push(zero());
+        }
+        ch[0].push(b12);
+        ch[1][0] -= b12;
+        ch[1].push(b13);
+        ch[2][0] -= b13;
+        ch[2].push(b14);
+        ch[3][0] -= b14;
+        im.t_chunks = ch;
+    }
+    hook(Stage::Quotient, &mut im);
+    for k in 0..4 {
+        im.comms[C_TLOW + k] = commit(key, &im.t_chunks[k])?;
+    }
+    fs.point(b"t_low_comm", &im.comms[C_TLOW]);
+    fs.point(b"t_mid_comm", &im.comms[C_TMID]);
+    fs.point(b"t_high_comm", &im.comms[C_THIGH]);
+    fs.point(b"t_fourth_comm", &im.comms[C_TFOURTH]);
+
+    // ---- round 4: evaluations
+    im.ch.z = fs.challenge(b"z_challenge");
+    let z = im.ch.z;
+    let zw = z * w;
+    {
+        let q = &pd.selectors;
+        let e = &mut im.evals;
+        e[E_A] = peval(&im.wire_polys[0], z);
+        e[E_B] = peval(&im.wire_polys[1], z);
+        e[E_C] = peval(&im.wire_polys[2], z);
+        e[E_D] = peval(&im.wire_polys[3], z);
+        e[E_AW] = peval(&im.wire_polys[0], zw);
+        e[E_BW] = peval(&im.wire_polys[1], zw);
+        e[E_DW] = peval(&im.wire_polys[3], zw);
+        e[E_QARITH] = peval(&q[6], z);
+        e[E_QC] = peval(&q[5], z);
+        e[E_QL] = peval(&q[1], z);
+        e[E_QR] = peval(&q[2], z);
+        e[E_S1] = peval(&pd.sigmas[0], z);
+        e[E_S2] = peval(&pd.sigmas[1], z);
+        e[E_S3] = peval(&pd.sigmas[2], z);
+        e[E_Z] = peval(&im.z_poly, zw);
+    }
+    im.honest_evals = im.evals;
+    im.zh_eval = fpow(z, n as u64) - one();
+    im.pi_eval = peval(&im.pi_poly, z);
+    im.l1_eval = peval(&vec![inv(fe(n as u64)); n], z);
+    if !adv.patch_only {
+        for (i, v) in &adv.eval_overrides {
+            im.evals[*i] = *v;
+        }
+    }
+    if let Some(f) = &adv.forge {
+        f(&mut im);
+    }
+    hook(Stage::Evals, &mut im);
+    for (label, idx) in EVAL_ABSORB.iter() {
+        fs.scalar(label, &im.evals[*idx]);
+    }
+
+    // ---- round 5: linearisation and openings
+    im.ch.v = fs.challenge(b"v_challenge");
+    {
+        let e = im.evals;
+        let q = &pd.selectors;
+        let ca = [e[E_A]];
+        let cb = [e[E_B]];
+        let cc = [e[E_C]];
+        let cd = [e[E_D]];
+        let caw = [e[E_AW]];
+        let cbw = [e[E_BW]];
+        let cdw = [e[E_DW]];
+        let ws = WireSet { a: &ca, b: &cb, c: &cc, d: &cd, aw: &caw, bw: &cbw, dw: &cdw };
+        let scalar = |p: Poly| -> Fe { peval(&p, zero()) };
+        let arith = pscale(
+            &sum(&[
+                pscale(&q[0], e[E_A] * e[E_B]),
+                pscale(&q[1], e[E_A]),
+                pscale(&q[2], e[E_B]),
+                pscale(&q[3], e[E_C]),
+                pscale(&q[4], e[E_D]),
+                q[5].clone(),
+            ]),
+            e[E_QARITH],
+        );
+        let range = pscale(&q[7], scalar(range_identity(&ws, im.ch.range_sep)) * im.ch.range_sep);
+        let logic = pscale(&q[8], scalar(logic_identity(&ws, &[e[E_QC]], im.ch.logic_sep)) * im.ch.logic_sep);
+        let fixed = pscale(&q[9], scalar(fixed_identity(&ws, &[e[E_QL]], &[e[E_QR]], &[e[E_QC]], im.ch.fixed_sep)) * im.ch.fixed_sep);
+        let var = pscale(&q[10], scalar(var_identity(&ws, im.ch.var_sep)) * im.ch.var_sep);
+        // permutation part
+        let id_k = alpha
+            * (e[E_A] + beta * z + gamma)
+            * (e[E_B] + beta * fe(K1) * z + gamma)
+            * (e[E_C] + beta * fe(K2) * z + gamma)
+            * (e[E_D] + beta * fe(K3) * z + gamma);
+        let copy_k = alpha * beta * e[E_Z] * (e[E_A] + beta * e[E_S1] + gamma) * (e[E_B] + beta * e[E_S2] + gamma) * (e[E_C] + beta * e[E_S3] + gamma);
+        let perm = sum(&[pscale(&im.z_poly, id_k), pscale(&pd.sigmas[3], -copy_k), pscale(&im.z_poly, alpha * alpha * im.l1_eval)]);
+        // Constant term: M3 states it as PI(z) = sum_rows PI_i * L_i(z). The real
+        // prover feeds the *sparse* public-input vector to its barycentric
+        // evaluation (values treated as sitting on rows 0,1,2,...), so its r(X)
+        // has a different constant term whenever a public input is not on
+        // those rows. The constant cancels in floor(r + ... / (X - z)), hence
+        // no proof byte depends on it (confirmed by byte equality on circuits
+        // with public inputs on rows >= 4).
+        // quotient part
+        let zn = fpow(z, n as u64);
+        let tq = sum(&[
+            im.t_chunks[0].clone(),
+            pscale(&im.t_chunks[1], zn),
+            pscale(&im.t_chunks[2], zn * zn),
+            pscale(&im.t_chunks[3], zn * zn * zn),
+        ]);
+        let r = sum(&[arith, range, logic, fixed, var, vec![im.pi_eval], perm, pscale(&tq, -im.zh_eval)]);
+        im.r_poly = r;
+        // W_z
+        let v = im.ch.v;
+        let members: [&[Fe]; 12] = [
+            &im.r_poly,
+            &im.wire_polys[0],
+            &im.wire_polys[1],
+            &im.wire_polys[2],
+            &im.wire_polys[3],
+            &pd.sigmas[0],
+            &pd.sigmas[1],
+            &pd.sigmas[2],
+            &q[6],
+            &q[5],
+            &q[1],
+            &q[2],
+        ];
+        let mut agg: Poly = vec![];
+        let mut pw = one();
+        for m in members.iter() {
+            agg = padd(&agg, &pscale(m, pw));
+            pw *= v;
+        }
+        im.w_z_poly = pdiv_linear(&ptrim(&agg), z).0;
+    }
+    im.ch.v_w = fs.challenge(b"v_w_challenge");
+    {
+        let members: [&[Fe]; 4] = [&im.z_poly, &im.wire_polys[0], &im.wire_polys[1], &im.wire_polys[3]];
+        let mut agg: Poly = vec![];
+        let mut pw = one();
+        for m in members.iter() {
+            agg = padd(&agg, &pscale(m, pw));
+            pw *= im.ch.v_w;
+        }
+        im.w_zw_poly = pdiv_linear(&ptrim(&agg), zw).0;
+    }
+    hook(Stage::Openings, &mut im);
+    im.comms[C_WZ] = commit(key, &im.w_z_poly)?;
+    im.comms[C_WZW] = commit(key, &im.w_zw_poly)?;
+    fs.point(b"w_z_chall_comm", &im.comms[C_WZ]);
+    fs.point(b"w_z_chall_w_comm", &im.comms[C_WZW]);
+    im.ch.u = fs.challenge(b"u_challenge");
+
+    let mut out_evals = im.evals;
+    if adv.patch_only {
+        for (i, v) in &adv.eval_overrides {
+            out_evals[*i] = *v;
+        }
+    }
+    Ok((serialize(&im.comms, &out_evals), im))
+}
+
+// ---------------------------------------------------------------------------
+// self test: byte equality with the real prover
+// ---------------------------------------------------------------------------
+
+pub mod circuits {
+    //! Small circuits shared by the M3 self test and C06.
+    use crate::c05::{family_assignment, merged_row, solve_pis, Fam};
+    use crate::fe::*;
+    use crate::prog::Prog;
+    use crate::rows::{self, Assign, Layout, Place};
+    use dusk_plonk::prelude::*;
+
+    /// arithmetic circuit with two public inputs, 8 constraints (n = 8)
+    pub fn arith(x: u64, y: u64) -> Prog {
+        Prog::new(move |c| {
+            let a = c.append_witness(fe(x));
+            let b = c.append_witness(fe(y));
+            // a*b + 3a + 5b + 7 + pi = 0 ... pi chosen public
+            let s = c.gate_add(Constraint::new().left(1).right(1).a(a).b(b));
+            let p = c.gate_mul(Constraint::new().mult(1).a(a).b(b));
+            let pi1 = -(fe(x) + fe(y) + fe(2) * fe(x) * fe(y));
+            c.append_gate(Constraint::new().left(1).fourth(2).a(s).d(p).public(pi1));
+            let pi2 = -(fe(3) * fe(x) + fe(9));
+            c.append_gate(Constraint::new().left(3).constant(9).a(a).public(pi2));
+            Ok(())
+        })
+    }
+    /// range gadget (2 * pairs bits)
+    pub fn range(x: u64) -> Prog {
+        Prog::new(move |c| {
+            let a = c.append_witness(fe(x));
+            c.component_range_bits::<8>(a);
+            Ok(())
+        })
+    }
+    /// logic rows (AND then XOR, each with its next row), 8 constraints.
+    /// (The public `append_logic_*` gadget needs ~170 rows per operand binding
+    /// and does not fit n <= 64, so the widget rows are laid out directly.)
+    pub fn logic(variant: usize) -> Prog {
+        let lay = Layout {
+            rows: vec![merged_row(&[Fam::And]), rows::RowSpec::zero(), merged_row(&[Fam::Xor]), rows::RowSpec::zero()],
+            share: vec![],
+            place: Place::First,
+        };
+        let (c1, n1) = family_assignment(Fam::And, variant);
+        let (c2, n2) = family_assignment(Fam::Xor, variant + 1);
+        rows::prog(&lay, &Assign::new(vec![c1, n1, c2, n2], vec![zero(); 4]))
+    }
+    /// component_add_point on two constant points
+    pub fn add_point(k1: u64, k2: u64) -> Prog {
+        Prog::new(move |c| {
+            let p = c.append_constant_point(crate::c05::gen_mul(k1))?;
+            let q = c.append_constant_point(crate::c05::gen_mul(k2))?;
+            let s = c.component_add_point(p, q);
+            c.assert_equal_public_point(s.into(), crate::c05::gen_mul(k1 + k2))?;
+            Ok(())
+        })
+    }
+    /// all five widget families on raw rows + arithmetic/PI rows, placed so that
+    /// the circuit has exactly `total` constraints (power of two)
+    pub fn mixed_layout(total: usize) -> (Layout, Vec<Assign>) {
+        let fams = [Fam::Range, Fam::And, Fam::Xor, Fam::Fixed, Fam::Var];
+        let mut rows_ = Vec::new();
+        for f in fams {
+            rows_.push(merged_row(&[f]));
+            rows_.push(rows::RowSpec::zero());
+        }
+        rows_.push(merged_row(&[Fam::Arith]));
+        rows_.push(merged_row(&[Fam::Arith, Fam::Range]));
+        let lay = Layout { rows: rows_, share: vec![], place: Place::LastOfFull(total) };
+        let mut asgs = Vec::new();
+        for v in [1usize, 2] {
+            let mut vals = Vec::new();
+            for f in fams {
+                let (cur, next) = family_assignment(f, v);
+                vals.push(cur);
+                vals.push(next);
+            }
+            vals.push([fe(2 + v as u64), fe(3), fe(5), fe(7)]);
+            // arith + range on the last row of the full domain: next row is row 0 (all zero)
+            let (cur, _) = family_assignment(Fam::Range, 0);
+            vals.push(cur);
+            let n = vals.len();
+            let mut a = Assign::new(vals, vec![zero(); n]);
+            solve_pis(&lay, &mut a);
+            asgs.push(a);
+        }
+        (lay, asgs)
+    }
+    pub fn mixed(total: usize, variant: usize) -> Prog {
+        let (lay, asgs) = mixed_layout(total);
+        rows::prog(&lay, &asgs[variant % asgs.len()])
+    }
+}
+
+/// Distinct non-zero draws.
+pub fn base_draws(stream: u64) -> [Fe; 14] {
+    let mut rho = Rho::new(seed(), 3000 + stream);
+    let mut d = [zero(); 14];
+    for x in d.iter_mut() {
+        let mut v = rho.next_fe();
+        while v == zero() {
+            v = rho.next_fe();
+        }
+        *x = v;
+    }
+    d
+}
+
+/// Real prover under a scripted RNG; (proof bytes, public inputs, rng calls).
+pub fn real_prove(
+    prover: &dusk_plonk::prelude::Prover,
+    prog: &crate::prog::Prog,
+    draws: &[Fe; 14],
+    ver: Version,
+) -> Result<(Vec<u8>, Vec<Fe>, Vec<crate::rng::Call>), String> {
+    use dusk_plonk::prelude::PlonkVersion;
+    let mut rng = crate::rng::ScriptedRng::new(draws.to_vec());
+    let pv = match ver {
+        Version::V2 => PlonkVersion::V2,
+        Version::V3 => PlonkVersion::V3,
+    };
+    let r = prover.prove_with_version(&mut rng, prog, pv).map_err(|e| format!("{:?}", e))?;
+    Ok((r.0.to_bytes().to_vec(), r.1, rng.calls))
+}
+
+pub fn selftest() -> Result<(), String> {
+    use dusk_plonk::prelude::Compiler;
+    // 64 constraints need capacity (64 + padding).next_power_of_two() = 128
+    let pp = crate::setup::pp(128);
+    let cases: Vec<(&str, crate::prog::Prog, crate::prog::Prog)> = vec![
+        ("arith", circuits::arith(3, 4), circuits::arith(11, 6)),
+        ("range", circuits::range(0), circuits::range(201)),
+        ("logic", circuits::logic(0), circuits::logic(1)),
+        ("add_point", circuits::add_point(2, 9), circuits::add_point(2, 9)),
+        ("mixed32", circuits::mixed(32, 0), circuits::mixed(32, 1)),
+        ("mixed64", circuits::mixed(64, 0), circuits::mixed(64, 1)),
+    ];
+    for (name, compile_prog, inst_prog) in cases {
+        let (prover, verifier) = Compiler::compile_with_circuit(&pp, b"m3-selftest", &compile_prog).map_err(|e| format!("{}: compile {:?}", name, e))?;
+        let pd = parse_prover(&prover.to_bytes()).map_err(|e| format!("{}: parse {}", name, e))?;
+        for (si, ver) in [(0u64, Version::V3), (1, Version::V2)] {
+            let draws = base_draws(si);
+            let (real, pis, _) = real_prove(&prover, &inst_prog, &draws, ver).map_err(|e| format!("{}: real prover {}", name, e))?;
+            let snap = inst_prog.last_snapshot().ok_or("no snapshot")?;
+            let inst = Instance::from_snapshot(&snap);
+            if inst.pi_values() != pis {
+                return Err(format!("{}: public inputs differ", name));
+            }
+            let (mine, im) = prove(&pd, &inst, &draws, ver, &Adversary::default()).map_err(|e| format!("{}: m3 {}", name, e))?;
+            if mine != real {
+                let field = (0..26)
+                    .find(|k| {
+                        let (o, l) = if *k < 11 { (k * 48, 48) } else { (528 + (k - 11) * 32, 32) };
+                        mine[o..o + l] != real[o..o + l]
+                    })
+                    .unwrap();
+                return Err(format!("{}/{:?}: first differing proof field #{} (n={})", name, ver, field, im.n));
+            }
+            // the challenges re-derived from the bytes are the prover's
+            let ch = challenges_from_proof(&pd, &decode_proof(&real)?, &pis, ver);
+            if ch != im.ch {
+                return Err(format!("{}: challenges re-derived from the proof differ from the prover's", name));
+            }
+            if ver == Version::V3 {
+                let proof = <dusk_plonk::prelude::Proof as Serializable<1008>>::from_bytes(&mine.clone().try_into().unwrap()).map_err(|e| format!("{:?}", e))?;
+                verifier.verify(&proof, &pis).map_err(|e| format!("{}: M3 proof rejected {:?}", name, e))?;
+            }
+        }
+    }
+    Ok(())
+}
+
+#[cfg(test)]
+mod tests {
+    use super::*;
+    use dusk_plonk::prelude::{Compiler, Proof};
+
+    fn verify(v: &dusk_plonk::prelude::Verifier, bytes: &[u8], pis: &[Fe]) -> bool {
+        let arr: [u8; 1008] = bytes.to_vec().try_into().unwrap();
+        match <Proof as Serializable<1008>>::from_bytes(&arr) {
+            Ok(p) => v.verify(&p, pis).is_ok(),
+            Err(_) => false,
+        }
+    }
+
+    #[test]
+    fn selftest_passes() {
+        selftest().unwrap();
+    }
+
+    #[test]
+    fn adversary_paths() {
+        let pp = crate::setup::pp(64);
+        let prog = circuits::arith(3, 4);
+        let (prover, verifier) = Compiler::compile_with_circuit(&pp, b"m3-adv", &prog).unwrap();
+        let pd = parse_prover(&prover.to_bytes()).unwrap();
+        let inst = Instance::from_snapshot(&prog.last_snapshot().unwrap());
+        let pis = inst.pi_values();
+        let draws = base_draws(7);
+        let (honest, im) = prove(&pd, &inst, &draws, Version::V3, &Adversary::default()).unwrap();
+        assert!(verify(&verifier, &honest, &pis));
+        assert!(im.remainder.iter().all(|c| *c == zero()));
+        // unsatisfied instance
+        let mut bad = inst.clone();
+        bad.wires[5][0] += one();
+        assert_eq!(prove(&pd, &bad, &draws, Version::V3, &Adversary::default()).err().unwrap(), "unsatisfied");
+        let (forced, im2) = prove(&pd, &bad, &draws, Version::V3, &Adversary { drop_remainder: true, ..Default::default() }).unwrap();
+        assert!(im2.remainder_dropped);
+        assert!(!verify(&verifier, &forced, &pis));
+        // patched evaluation only
+        let adv = Adversary { eval_overrides: vec![(E_A, fe(5))], patch_only: true, ..Default::default() };
+        let (patched, _) = prove(&pd, &inst, &draws, Version::V3, &adv).unwrap();
+        let off = 528 + E_A * 32;
+        assert_eq!(patched[..off], honest[..off]);
+        assert_eq!(patched[off + 32..], honest[off + 32..]);
+        assert_ne!(patched[off..off + 32], honest[off..off + 32]);
+        assert!(!verify(&verifier, &patched, &pis));
+        // override absorbed: openings follow
+        let adv = Adversary { eval_overrides: vec![(E_A, fe(5))], ..Default::default() };
+        let (forged, im3) = prove(&pd, &inst, &draws, Version::V3, &adv).unwrap();
+        assert_ne!(im3.ch.v, im.ch.v);
+        assert_ne!(forged[C_WZ * 48..C_WZ * 48 + 48], honest[C_WZ * 48..C_WZ * 48 + 48]);
+        assert!(!verify(&verifier, &forged, &pis));
+        // stage hook sees every stage
+        let seen = std::sync::Arc::new(Mutex::new(vec![]));
+        let s2 = seen.clone();
+        let adv = Adversary { stage_hook: Some(Box::new(move |st, _| s2.lock().unwrap().push(st))), ..Default::default() };
+        let (again, _) = prove(&pd, &inst, &draws, Version::V3, &adv).unwrap();
+        assert_eq!(again, honest);
+        assert_eq!(*seen.lock().unwrap(), vec![Stage::Wires, Stage::Perm, Stage::Quotient, Stage::Evals, Stage::Openings]);
+    }
+}
